@@ -310,6 +310,11 @@ def Atom.asNpDouble : Atom → Option (Except Exc (F × F))
   | .npComplex _ re im => some (.ok (re, im))
   | _ => Option.none
 
+/-- `np.bool_ == n` for a Python int outside the int64 range. -/
+def Atom.npBoolVsBigInt : Atom → Atom → Bool
+  | .npBool _, .int _ n => decide (n < -(2 ^ 63)) || decide (n ≥ 2 ^ 63)
+  | _, _ => false
+
 /-- `==` on atoms.  Pure Python numbers compare exactly (int against float
 too, as CPython does); as soon as a numpy scalar is involved numpy's `__eq__`
 decides: integers among themselves exactly, everything else after conversion
@@ -323,6 +328,8 @@ def Atom.pyEq (a b : Atom) : Tri :=
       match a.exactInt, b.exactInt with
       | some m, some n => if m = n then .yes else .no
       | _, _ =>
+        -- np.bool_ against a Python int: the int is converted to int64 first
+        if a.npBoolVsBigInt b || b.npBoolVsBigInt a then .raises .overflowError else
         match a.asNpDouble, b.asNpDouble with
         | some (.error e), some _ => .raises e
         | some _, some (.error e) => .raises e
